@@ -89,6 +89,11 @@ func (c03) Gen(tier string, seed int64, emit func([]Ev)) {
 					if k > 255 {
 						k = 255
 					}
+					if r.Intn(8) == 0 {
+						// longer than any length byte can express: must be refused like any other misfit,
+						// whatever the length is modulo 256
+						k = []int{256, 257, 260, 256 + r.Intn(184), 511, 512, 513, 512 + r.Intn(184), 768, 1024, 1024 + r.Intn(184), 65536 + r.Intn(184)}[r.Intn(12)]
+					}
 					d := make([]byte, k)
 					r.Read(d)
 					e["arg"] = B(d)
@@ -96,6 +101,9 @@ func (c03) Gen(tier string, seed int64, emit func([]Ev)) {
 						// length chosen at execution time relative to the room the field has then:
 						// exactly fitting, one short, one too many
 						e["fit"] = []int{-1, 0, 0, 1}[r.Intn(4)]
+						if r.Intn(5) == 0 {
+							e["wrap"] = 1 + r.Intn(3)
+						}
 					}
 				default:
 					e["op"] = "SetAdaptationField"
@@ -255,6 +263,10 @@ func (c03) Exec(h []Ev) []Ev {
 					}
 					if n > 255 {
 						n = 255
+					}
+					if w, ok := e["wrap"]; ok {
+						n += 256 * GI(w) // the same length modulo 256, far too long
+						delete(e, "wrap")
 					}
 					d := make([]byte, n)
 					for i := range d {
